@@ -22,7 +22,7 @@ from gym_gridverse.geometry import Position, Shape
 from gym_gridverse.grid_object import Color, Floor, MovingObstacle, Telepod
 
 from .. import compose, enc, gen, workloads
-from ..monitor import call_real, describe_exc, raised_by_harness, reach
+from ..monitor import call_real, describe_exc, env_rng, raised_by_harness, reach
 
 ID = 'C02'
 LEVEL = 'exploration'
@@ -64,8 +64,16 @@ def ops_for(rng, n):
 
 
 def env_rng_state(env):
-    r = getattr(env, '_rng', None)
+    r = env_rng(env)
     return None if r is None else repr(r.bit_generator.state)
+
+
+def never_reset(env):
+    try:
+        env.state
+        return False
+    except Exception:  # noqa
+        return True
 
 
 def global_snapshot():
@@ -141,7 +149,7 @@ class Hostile:
             env = self.others[j]
             r = rng.random()
             try:
-                if env._state is None or r < 0.1:
+                if never_reset(env) or r < 0.1:
                     env.reset()
                 elif r < 0.8:
                     env.step(rng.choice(env.action_space.actions))
@@ -285,6 +293,8 @@ def compare_pair(ctx, label, kind, data, seed, nops, sched_seed, payload, other_
 def library_stream_after(kind, data, seed, ops):
     """a never-used library generator (as in a fresh interpreter), a seeded environment living through `ops`, then the first
     numbers the library generator hands to somebody else"""
+    if not hasattr(gv_rng, '_gv_rng'):
+        raise LookupError('the library keeps its generator elsewhere')
     gv_rng._gv_rng = None
     env = make_env(kind, data, seed)
     run_trace(env, ops)
@@ -296,6 +306,10 @@ def fresh_library_generator(ctx, label, kind, data, seed, payload):
     library generator not yet created, two runs with the same environment seed leave *different* library streams (fresh
     entropy), and the environment traces stay equal"""
     ops = ops_for(gen.rng_for('C02fresh', label, seed), 25)
+    if not hasattr(gv_rng, '_gv_rng'):  # nothing to put back into its never-created state: the experiment does not apply
+        ctx.add('fresh_library_generator_not_applicable')
+        ctx.hit('fresh_library.pairs')
+        return
     ok1, a = call_real(library_stream_after, kind, data, seed, ops)
     ok2, b = call_real(library_stream_after, kind, data, seed, ops)
     gv_rng.reset_gv_rng(12345)
